@@ -150,7 +150,7 @@ class Interp:
 
     # -- time ------------------------------------------------------------------------------------
     async def op_D(self, act, pc, d):
-        await (time + d)
+        await (time + num(d))
 
     async def op_EQ(self, act, pc, t):
         await (time == self.T(t))
@@ -479,6 +479,16 @@ class Interp:
             await self.block(act, body, pc + ('t',))
         finally:
             await self.block(act, cleanup, pc + ('f',))
+
+    async def op_ONCANCEL(self, act, pc, body, cleanup):
+        """a payload that handles its cancellation gracefully: catch CancelTask, clean up (may suspend), re-raise"""
+        from usim import CancelTask
+        try:
+            await self.block(act, body, pc + ('t',))
+        except CancelTask:
+            self.ctx.rec('cancel-caught', act, pc, None)
+            await self.block(act, cleanup, pc + ('f',))
+            raise
 
     async def op_PROBE(self, act, pc, what, arg=None):
         o = self.ctx.objs
